@@ -114,7 +114,7 @@ PROPS['C04'] = dict(
          'compared with an independent linear scan; call operator compared with evaluation; hook H2 bounds the binary search at 64 steps; '
          'distinct_nontrivial counts distinct (table,coordinate vector) lookups',
     assumptions=ASSUME_COMMON,
-    require={'any': {'lookups-expected-success': 5000, 'lookups-expected-failure': 1000, 'bracket-checks': 3000, 'nearest-interval-checks': 500}},
+    require={'any': {'empty-table-lookups': 10, 'lookups-expected-success': 5000, 'lookups-expected-failure': 1000, 'bracket-checks': 3000, 'nearest-interval-checks': 500}},
 )
 PROPS['C05'] = dict(
     level_text='Hostile-input exploration under ASan+UBSan with assertions enabled and exact-size heap buffers: arbitrary IEEE bit patterns as coordinates through every entry point of every specialised routine; each case isolated in a worker that is restarted after a crash so one defect never masks another.',
@@ -250,7 +250,7 @@ PROPS['C11'] = dict(
          'about one system in six is handed over with every variable in a unit of its own (D A0 D, D b0 with D_i = 2^k, |k| up to 27) and judged by (A0, b0) with the stated tolerances converted; '
          'distinct_nontrivial counts distinct (system, solver) pairs',
     assumptions=ASSUME_COMMON + ['tolerance on the gradient: stated dual tolerance + 64 n eps (|A||x|+|b|); distance bound 4 sqrt(n)(tau+|A| t)/lambda_min'],
-    require={'any': {'oracle-solutions': 200, 'problems-degenerate': 50, 'problems-large(KKT-only)': 50, 'solves:nnls_normal_block3': 300, 'solves:nnls_lawson_hanson(ls)': 50, 'problems-with-a-unit-per-variable': 40}},
+    require={'any': {'oracle-solutions': 200, 'problems-degenerate': 50, 'problems-large(KKT-only)': 50, 'solves:nnls_normal_block3': 300, 'solves:nnls_lawson_hanson(ls)': 50, 'problems-with-a-unit-per-variable': 40, 'small-stack-solves:nnls_normal_block': 2, 'small-stack-solves:nnls_normal_block3': 2}},
 )
 
 
